@@ -24,9 +24,17 @@
   (and C04.fix-1). `…_code` theorems are about `codeCfg`, the refutations of the two
   fixed findings about `legacyCfg`, `…_partial` theorems about every configuration.
 
-  One statement does NOT hold of the code as it is. It is kept visible as `…_full`,
+  Two statements do NOT hold of the code as it is. Each is kept visible as `…_full`,
   proved under the hypothesis that excludes the offending inputs, and refuted on a
   witness the real core was seen to follow:
+    * teardown_recursive_rlock — TeardownEnvironment read-locks the environment manager's
+      mutex and calls `envs.environment()`, which read-locks it again; a writer whose Lock()
+      falls between the two (another teardown, a creation entering its environment in the map,
+      the event loop) deadlocks the mutex: the requests involved, and every later one, never
+      return (`C06_lookup_returns_full`, `C06_finding_teardown_recursive_rlock`,
+      `C06_lookup_returns_partial`, `C06_lookup_returns_repaired`, tie `C06_lookup_is_code`).
+      Seen on the real core when a destroy waits for a creation that then fails: the destroy's
+      teardown and the creation's own teardown start at the same instant (about one run in 150).
     * launch_pending_leak — doKillTasks only KILLs tasks whose status is ACTIVE;
       a task that was launched but has not yet reported TASK_RUNNING when its
       deployment is given up is dropped from the roster and keeps running
@@ -44,8 +52,25 @@
       the entry is removed in the critical section that looks it up:
       `C06_teardown_returns_code`, `C06_teardown_never_hangs_code`; tie
       `C06_rendezvous_is_code`.
+
+  A destroy may arrive WHILE the environment is being created (it is addressable from the moment
+  CreateEnvironment entered it in the map; DEPLOY, CONFIGURE and the failure tail's GO_ERROR and
+  teardown each take the environment's transition mutex for themselves). Such a destroy goes
+  straight to doTeardownAndCleanup and its TeardownEnvironment waits for the mutex: it is served
+  at a later section boundary and must work on the environment as it is THEN. Section "a destroy
+  that overlaps the creation": the creation cut at its critical sections is `createSettle`
+  (`C06_settle_pieces`), doTeardownAndCleanup is an attempt and a forced retry
+  (`C06_teardown_and_cleanup_is_attempts`), whichever attempt answers success — in whatever
+  well-formed state it is served — leaves the environment clean (`C06_overlapping_destroy_clean_code`),
+  an attempt served after the environment was taken away answers "not found"
+  (`C06_overlapping_destroy_gone`); the coarse rule of `destroy` / `control` (`C06_destroy_waits_for_creation`,
+  `C06_overlap_is_sequential`, `C06_forced_overlap_is_sequential_destroy`); from the state BEFORE the
+  creation, with no hypothesis about the state the destroy finds: `C06_created_then_destroyed_clean_code`
+  (sequential destroy, and waiting destroy served after the creation settled),
+  `C06_destroyed_after_deploy_clean_code` (waiting destroy served right after DEPLOY); tie
+  `C06_teardown_reads_under_mutex_is_code`.
 -/
-import ControlModel.Proofs.Own
+import ControlModel.Proofs.OwnOverlap
 import ControlModel.Gen.C06Facts
 
 open Own
@@ -441,3 +466,246 @@ theorem C06_teardown_never_hangs_code (s : State) (hc : s.cfg = codeCfg) (k : En
 theorem C06_teardown_returns_partial (s : State) (k : EnvId) (force : Bool) (hf : List TaskId)
     (h : ∀ E ∈ s.envs, E.tearing = false) : (teardown s k force false hf).2.1 ≠ .hang :=
   teardown_not_hang s k force false hf (fun E hE => h E (env?_some hE).1) (by simp)
+
+/-! ## a destroy that overlaps the creation -/
+
+/-- **The creation cut at the critical sections of the transition mutex is `createSettle`**: DEPLOY,
+    then CONFIGURE or — after a failed section — GO_ERROR, the forced teardown and KillTasks, run one
+    after the other with nothing in between, are the one-step settle of the model, in every state
+    of every run (`Inv`: an inserted pending creation's environment is listed). The monitor places
+    the attempts of a waiting destroy between these sections. -/
+theorem C06_settle_pieces (s : State) (k : EnvId) (o : SettleOracle) (h : Inv s) :
+    settleSeq s k o = createSettle s k o :=
+  settle_pieces_inv s k o h
+
+/-- **doTeardownAndCleanup is a first TeardownEnvironment attempt and, if that one answered an
+    error without being forced, a forced retry** on the state the first attempt left (state and answer). -/
+theorem C06_teardown_and_cleanup_is_attempts (s : State) (k : EnvId) (ids : List TaskId) (force keep : Bool) (o : DOracle) :
+    ((teardownAndCleanup s k ids force keep o).1, (teardownAndCleanup s k ids force keep o).2.1) =
+      match lateAttempt s k ids force keep o with
+      | some r => (r.1, r.2.1)
+      | none => ((lateRetry (teardown s k force o.late1 o.hookFails).1 k ids keep o).1,
+                 (lateRetry (teardown s k force o.late1 o.hookFails).1 k ids keep o).2.1) :=
+  tac_attempts s k ids force keep o
+
+/-- **A destroy that had to wait for the creation and answers success leaves the environment
+    clean** — the code as it is. `s` is the state in which the attempt (the first one, or the forced
+    retry) is SERVED, i.e. gets the transition mutex: right after DEPLOY, after CONFIGURE, after a
+    failed section, after GO_ERROR; `E` is the environment as listed then — in particular with the
+    task list it has then (the tasks acquireTasks handed to the roles at the very end of DEPLOY), not
+    the one it had when the request arrived. Hypotheses as in `C06_destroyed_clean_code`, on `s`. -/
+theorem C06_overlapping_destroy_clean_code (s : State) (hc : s.cfg = codeCfg) (k : EnvId) (force keep : Bool)
+    (o : DOracle) (E : Env)
+    (hE : s.env? k = some E) (hwf : envWf s k E.tasks = true) (hhk : ∀ h ∈ E.hooks, h.task ∈ E.tasks)
+    (hfaith : statusFaithful s E.tasks = true) :
+    (∀ r, lateAttempt s k (envTaskIds s k) force keep o = some r → r.2.1 = .ok → cleanAfter k keep (viewOf r.1) = true) ∧
+    ((lateRetry s k (envTaskIds s k) keep o).2.1 = .ok →
+      cleanAfter k keep (viewOf (lateRetry s k (envTaskIds s k) keep o).1) = true) :=
+  ⟨fun r hr hok => lateAttempt_clean s k force keep o E hE hwf hfaith (by simp [hooksOk, hc, codeCfg]) hhk r hr hok,
+   fun hok => lateRetry_clean s k keep o E hE hwf hfaith (by simp [hooksOk, hc, codeCfg]) hhk hok⟩
+
+/-- The same in every configuration, with the hook hypothesis. -/
+theorem C06_overlapping_destroy_clean_partial (s : State) (k : EnvId) (force keep : Bool)
+    (o : DOracle) (E : Env)
+    (hE : s.env? k = some E) (hwf : envWf s k E.tasks = true) (hhk : ∀ h ∈ E.hooks, h.task ∈ E.tasks)
+    (hrel : hooksReleasable s E.hooks = true) (hfaith : statusFaithful s E.tasks = true) :
+    (∀ r, lateAttempt s k (envTaskIds s k) force keep o = some r → r.2.1 = .ok → cleanAfter k keep (viewOf r.1) = true) ∧
+    ((lateRetry s k (envTaskIds s k) keep o).2.1 = .ok →
+      cleanAfter k keep (viewOf (lateRetry s k (envTaskIds s k) keep o).1) = true) :=
+  ⟨fun r hr hok => lateAttempt_clean s k force keep o E hE hwf hfaith (by simp [hooksOk, hrel]) hhk r hr hok,
+   fun hok => lateRetry_clean s k keep o E hE hwf hfaith (by simp [hooksOk, hrel]) hhk hok⟩
+
+/-- **An attempt served after the environment was taken away** (by the failing creation's own
+    teardown) **answers "not found" and changes nothing**: the destroy does not answer success for
+    something it did not do. -/
+theorem C06_overlapping_destroy_gone (s : State) (k : EnvId) (ids : List TaskId) (force keep : Bool) (o : DOracle)
+    (h : s.env? k = none) :
+    (lateRetry s k ids keep o).2.1 = .notfound ∧ (lateRetry s k ids keep o).1 = s ∧
+    (∀ r, lateAttempt s k ids force keep o = some r → r.2.1 = .notfound ∧ r.1 = s) :=
+  lateAttempt_gone s k ids force keep o h
+
+/-- **The coarse rule**: a destroy or a control request on an environment whose creation is
+    pending (begun, not yet settled) is not served — the model's `destroy` / `control` step leaves
+    the state as it is and answers nothing (DEPLOY / CONFIGURE hold the transition mutex). -/
+theorem C06_destroy_waits_for_creation (s : State) (k : EnvId) (h : ∃ p ∈ s.creating, p.id = k) :
+    (∀ force allow keep o, destroy s k force allow keep o = (s, .noop, [])) ∧
+    (∀ ev fails pre, control s k ev fails pre = (s, .noop)) :=
+  ⟨fun f a kp o => destroy_pending_noop s k f a kp o h, fun ev fl pre => control_pending_noop s k ev fl pre h⟩
+
+/-- … hence, in the coarse model, **a destroy issued between the insertion and the settling of a
+    creation makes no difference**: the run with it is the run without it, whatever follows — the
+    destroy that follows the settling is the one that counts. -/
+theorem C06_overlap_is_sequential (s : State) (k : EnvId) (force allow keep : Bool) (o : DOracle) (rest : List Step)
+    (hs : s.crashed = false) (h : ∃ p ∈ s.creating, p.id = k) :
+    run s (.destroy k force allow keep o :: rest) = run s rest := by
+  simp only [run, step, hs, Bool.false_eq_true, if_false]
+  rw [destroy_pending_noop s k force allow keep o h]
+
+/-- **A forced destroy that waited for the creation and is served once it has settled is the
+    sequential forced destroy**: same state, same answer, same trace (a forced DestroyEnvironment
+    goes straight to doTeardownAndCleanup whether or not it had to wait). For a destroy that is not
+    forced the two differ in the way they take (the sequential one RESETs a CONFIGURED environment
+    first, the waiting one evaluated its decision tree on STANDBY / DEPLOYED and retries forced);
+    both leave the environment clean (`C06_destroyed_clean_code`, `C06_overlapping_destroy_clean_code`). -/
+theorem C06_forced_overlap_is_sequential_destroy (s : State) (k : EnvId) (allow keep : Bool) (o : DOracle) (E : Env)
+    (hp : ∀ p ∈ s.creating, p.id ≠ k) (hE : s.env? k = some E) (hte : E.tearing = false) :
+    lateAttempt s k (envTaskIds s k) true keep o = some (destroy s k true allow keep o) := by
+  have hany : (s.creating.any fun p => decide (p.id = k)) = false := by
+    simp only [List.any_eq_false, decide_eq_true_eq]; exact hp
+  have hids : envTaskIds s k = E.tasks := by unfold envTaskIds; rw [hE]
+  unfold destroy lateAttempt teardownAndCleanup
+  simp [hany, hE, hte, hids]
+
+/-- **Created, then destroyed: nothing is left — from the state before the creation, with no
+    hypothesis about the state the destroy finds.** `s0` is any state of any run (`Inv`) in which
+    nothing refers to `k` yet (`freshEnv`: environment ids are fresh), without reuse of unlocked
+    tasks; the creation of `k` (any workflow, any oracle that loses no executor while the tasks
+    are configured) runs and succeeds. Then, the code as it is,
+      * the destroy that follows it (any flags, any oracle) and answers success,
+      * the destroy that was issued DURING the creation, waited for the transition mutex and is
+        served once the creation has settled — its first attempt or its forced retry — and answers
+        success
+    leave the environment clean. The hypotheses `envWf` / `statusFaithful` of
+    `C06_destroyed_clean_code` are established by the creation itself (`settle_ok_hyps`). -/
+theorem C06_created_then_destroyed_clean_code (s0 : State) (h : Inv s0) (hc : s0.cfg = codeCfg) (hr : s0.reuse = false)
+    (k : EnvId) (hfr : freshEnv s0 k = true) (spec : EnvSpec) (o : SettleOracle) (hl : o.lost = [])
+    (hok : (createSettle (run s0 [.createBegin k spec, .createCleanup k, .createInsert k]) k o).2 = .okState .CONFIGURED)
+    (force allow keep : Bool) (od : DOracle) :
+    let s4 := (createSettle (run s0 [.createBegin k spec, .createCleanup k, .createInsert k]) k o).1
+    ((destroy s4 k force allow keep od).2.1 = .ok → cleanAfter k keep (viewOf (destroy s4 k force allow keep od).1) = true) ∧
+    (∀ r, lateAttempt s4 k (envTaskIds s4 k) force keep od = some r → r.2.1 = .ok → cleanAfter k keep (viewOf r.1) = true) ∧
+    ((lateRetry s4 k (envTaskIds s4 k) keep od).2.1 = .ok →
+      cleanAfter k keep (viewOf (lateRetry s4 k (envTaskIds s4 k) keep od).1) = true) := by
+  intro s4
+  have h3 : Inv (run s0 [.createBegin k spec, .createCleanup k, .createInsert k]) := inv_run s0 _ (by simp [noClaimSteps, Step.isClaim]) h
+  have rc := rc_run [.createBegin k spec, .createCleanup k, .createInsert k] s0 (Or.inl hr)
+  obtain ⟨hcfg, E, hE, _, hwf, hhk, hfa⟩ := settle_ok_hyps _ k o h3 (rc.1.trans hr) (freshEnv_prefix s0 k spec hfr) hl hok
+  have hc4 : s4.cfg = codeCfg := (hcfg.trans rc.2.2).trans hc
+  have ov := C06_overlapping_destroy_clean_code s4 hc4 k force keep od E hE hwf hhk hfa
+  exact ⟨fun hd => C06_destroyed_clean_code s4 k force allow keep od E hc4 hE hwf hhk hfa hd, ov.1, ov.2⟩
+
+/-- **… and the destroy that is served right after DEPLOY** — before the creation's CONFIGURE,
+    which then finds the environment gone — **leaves it clean as well**: `s` is the state in which
+    the creation of `k` has been inserted (nothing refers to `k` yet), `s1` / `m` what a successful
+    DEPLOY leaves; the waiting destroy's attempt (or forced retry) served in `s1` that answers
+    success has released and (unless asked to keep them) killed every task DEPLOY acquired. -/
+theorem C06_destroyed_after_deploy_clean_code (s : State) (h : Inv s) (hc : s.cfg = codeCfg) (hr : s.reuse = false)
+    (k : EnvId) (hfr : freshEnv s k = true) (o : SettleOracle) (s1 : State) (m : Mid) (r : Res)
+    (hd : settleDeploy s k o = (s1, some m, r)) (hm : m.res = .noop) (force keep : Bool) (od : DOracle) :
+    (∀ r', lateAttempt s1 k (envTaskIds s1 k) force keep od = some r' → r'.2.1 = .ok → cleanAfter k keep (viewOf r'.1) = true) ∧
+    ((lateRetry s1 k (envTaskIds s1 k) keep od).2.1 = .ok →
+      cleanAfter k keep (viewOf (lateRetry s1 k (envTaskIds s1 k) keep od).1) = true) := by
+  obtain ⟨_, _, hcfg, E, hE, _, _, hwf, hhk, hfa⟩ := deploy_ok_hyps s k o h hr hfr s1 m r hd hm
+  exact C06_overlapping_destroy_clean_code s1 (hcfg.trans hc) k force keep od E hE hwf hhk hfa
+
+/-- **The model's teardown reads the environment under the transition mutex, as the code does**:
+    go/ast of TeardownEnvironment finds the lookup, then `if !env.transitionMutex.TryLock() { …
+    env.transitionMutex.Lock() … }` directly followed by `defer env.transitionMutex.Unlock()`, no use of
+    `env.…` before that statement, and reads of `env.Workflow()` after it — whatever the teardown
+    learns about the environment (state, task list, hooks) it learns about the environment as it
+    is when the teardown is served, which is what `teardown s k` applied to the serve state `s`
+    says. A read moved in front of the wait breaks this theorem. -/
+theorem C06_teardown_reads_under_mutex_is_code :
+    Gen.teardownReadsUnderMutex = true ∧ Gen.teardownMutexCounts.1 = 0 ∧ 0 < Gen.teardownMutexCounts.2 := by decide
+
+/-- Non-vacuity of `C06_created_then_destroyed_clean_code`: its hypotheses hold of the initial
+    state, the creation of `lossSpec` succeeds, and both a sequential plain destroy and a waiting
+    destroy that is not forced (first attempt refused in CONFIGURED, forced retry) answer success. -/
+example :
+    freshEnv (init false [1, 2, 3, 4]) 0 = true ∧
+    (createSettle (run (init false [1, 2, 3, 4]) [.createBegin 0 lossSpec, .createCleanup 0, .createInsert 0]) 0 {}).2 = .okState .CONFIGURED ∧
+    (destroy lossState 0 false false false {}).2.1 = .ok ∧
+    lateAttempt lossState 0 (envTaskIds lossState 0) false false {} = none ∧
+    (lateRetry lossState 0 (envTaskIds lossState 0) false {}).2.1 = .ok := by decide
+
+/-- Two tasks on hosts 1 and 2; the creation is past DEPLOY (both tasks acquired, handed to
+    their roles) and has not entered CONFIGURE. -/
+def overlapMid : State × Option Mid × Res :=
+  settleDeploy (run (init false [1, 2, 3, 4]) [.createBegin 0 lossSpec, .createCleanup 0, .createInsert 0]) 0 {}
+
+/-- Non-vacuity, on the schedule the real core was seen to follow least often and that matters
+    most: the waiting destroy is served right after DEPLOY. The hypotheses hold of that state; the
+    first attempt answers success, has released tasks 1 and 2 (the list the environment has THEN;
+    when the request arrived it was empty) and killed them; CONFIGURE then finds the environment
+    gone and the creation answers an error after a failure tail that has nothing left to do. -/
+example :
+    (∃ m, overlapMid.2.1 = some m ∧ m.res = .noop ∧ m.ids = [1, 2]) ∧
+    (overlapMid.1.env? 0).map (·.tasks) = some [1, 2] ∧
+    envWf overlapMid.1 0 [1, 2] = true ∧ statusFaithful overlapMid.1 [1, 2] = true ∧
+    (∃ r, lateAttempt overlapMid.1 0 (envTaskIds overlapMid.1 0) false false {} = some r ∧ r.2.1 = .ok ∧
+      r.2.2.head? = some (.release [1, 2]) ∧
+      (viewOf r.1).envs = [] ∧ (viewOf r.1).roster = [] ∧
+      (viewOf r.1).master = [{ task := 1, label := 0, mesos := .terminal, killed := true },
+                             { task := 2, label := 0, mesos := .terminal, killed := true }] ∧
+      cleanAfter 0 false (viewOf r.1) = true ∧
+      (∀ m, overlapMid.2.1 = some m → (settleConfigure r.1 m).2.res = .errConfigure ∧
+        (settleTail (settleConfigure r.1 m).1 (settleConfigure r.1 m).2).2 = .errConfigure ∧
+        viewOf (settleTail (settleConfigure r.1 m).1 (settleConfigure r.1 m).2).1 = viewOf r.1)) := by
+  refine ⟨⟨_, rfl, by decide, by decide⟩, by decide, by decide, by decide, ⟨_, rfl, by decide, by decide, by decide, by decide, by decide, by decide, ?_⟩⟩
+  intro m hm
+  have : m = (overlapMid.2.1).get (by decide) := by simp [hm]
+  subst this
+  decide
+
+/-- `cleanAfter` rejects what a teardown working on the task list of the moment the request
+    arrived (empty: DEPLOY had not handed the tasks over yet) leaves: the destroy answered success,
+    the environment is gone, and both tasks are still locked by it. -/
+example : cleanAfter 0 false
+    { roster := [{ task := 1, owner := some 0, locked := true, state := some .CONFIGURED },
+                 { task := 2, owner := some 0, locked := true, state := some .CONFIGURED }],
+      master := [{ task := 1, label := 0, mesos := .running, killed := false },
+                 { task := 2, label := 0, mesos := .running, killed := false }] } = false := by decide
+
+/-! ## the lookup at the head of TeardownEnvironment and the environment manager's mutex -/
+
+/-- The full-strength liveness claim for the lookup: every maximal schedule of a
+    TeardownEnvironment's lookup (goroutine T) and a writer of `envs.mu` (goroutine W) ends with
+    both through. `nested`: T takes the read lock twice, as the code does. -/
+def C06_lookup_returns_full (nested : Bool) : Prop :=
+  ∀ st ∈ Rw.reach nested 7 [{}], Rw.stuck nested st = true → Rw.done nested st = true
+
+/-- **Finding teardown_recursive_rlock**: the schedule RLock (T) · Lock announced (W) is a run of
+    the code; in the state it leads to T's second RLock waits for the writer, the writer waits
+    for T's first read lock, and nothing else can move: the environment manager's mutex is dead. -/
+theorem C06_finding_teardown_recursive_rlock : ¬ C06_lookup_returns_full true := by
+  intro h
+  have hrun : Rw.run true {} [.rlock, .wannounce] = some { readers := 1, pending := true, writer := false, t := 1, w := 1 } := by decide
+  have hmem : ({ readers := 1, pending := true, writer := false, t := 1, w := 1 } : Rw.St) ∈ Rw.reach true 7 [{}] := by decide
+  have := h _ hmem (by decide)
+  revert this
+  decide
+
+/-- Without a writer around (W already through) every schedule of the nested lookup completes:
+    the defect needs a `Lock()` between the two `RLock()`s. -/
+theorem C06_lookup_returns_partial :
+    ∀ st ∈ Rw.reach true 7 [{ w := 3 }], Rw.stuck true st = true → Rw.done true st = true := by decide
+
+/-- With the outer `RLock` / `RUnlock` pair removed (`environment()` locks for itself) every
+    maximal schedule ends with both goroutines through (all reachable states, enumerated in the kernel). -/
+theorem C06_lookup_returns_repaired : C06_lookup_returns_full false := by
+  unfold C06_lookup_returns_full
+  decide
+
+/-- **The model's lookup is the code's**: go/ast of core/environment/manager.go finds the call
+    `envs.environment(…)` of TeardownEnvironment between `envs.mu.RLock()` and `envs.mu.RUnlock()`, and
+    an `envs.mu.RLock()` inside `environment` itself. Removing either breaks this theorem (and
+    closes the finding). -/
+theorem C06_lookup_is_code : Rw.nestedInCode = Gen.teardownLookupNestedRLock ∧ Gen.teardownLookupLocks = (true, true) := by decide
+
+/-- In the ownership model the deadlock is the two teardowns of environment `k` never returning:
+    `k` stays listed, marked as being torn down for ever; nothing else changes. -/
+theorem C06_wedge_keeps_everything (s : State) (k : EnvId) :
+    (wedgeTeardowns s k).roster = s.roster ∧ (wedgeTeardowns s k).master = s.master ∧
+    (wedgeTeardowns s k).envs.map (·.id) = s.envs.map (·.id) ∧
+    (∀ E ∈ (wedgeTeardowns s k).envs, E.id = k → E.tearing = true) := by
+  refine ⟨rfl, rfl, ?_, ?_⟩
+  · simp only [wedgeTeardowns, setEnv, List.map_map]
+    congr 1
+    funext X
+    by_cases hk : X.id = k <;> simp [hk]
+  · intro E hE hk
+    simp only [wedgeTeardowns, setEnv] at hE
+    obtain ⟨X, _, rfl⟩ := List.mem_map.mp hE
+    by_cases hX : X.id = k
+    · simp [hX]
+    · simp only [hX, if_false] at hk
